@@ -121,6 +121,9 @@ type Config struct {
 	EntryOnly bool
 	// Loads makes the engine emit KLoad events for field loads.
 	Loads bool
+	// InlineLoops allows callees with loops to be expanded; they are
+	// traversed acyclically (paths that iterate are dropped).
+	InlineLoops bool
 }
 
 type Stats struct {
@@ -206,6 +209,15 @@ func (st *state) clone() *state {
 	}
 	n.fr = st.fr.clone()
 	return n
+}
+
+func (f *frame) onStack(fn *ssa.Function) bool {
+	for x := f; x != nil; x = x.parent {
+		if x.fn == fn {
+			return true
+		}
+	}
+	return false
 }
 
 func (f *frame) clone() *frame {
@@ -305,8 +317,9 @@ func (en *enum) block(st *state, b *ssa.BasicBlock, pred *ssa.BasicBlock) {
 	if fr.seen[b] {
 		// back edge
 		if fr.parent != nil {
-			// never happens: callees with loops are not inlined
-			en.err = fmt.Errorf("pathx: loop inside inlined callee %s", fr.fn)
+			// callees are traversed acyclically: the iteration is dropped, the
+			// loop exit is reached on the path that skips the body
+			en.stats.Pruned++
 			return
 		}
 		en.headers[b] = true
@@ -381,7 +394,7 @@ func (en *enum) instrs(st *state, b *ssa.BasicBlock, from int) {
 			}
 			ev := en.callEvent(st, KCall, ins, &ins.Call)
 			ev.Result = ins
-			if cal := ev.Callee; cal != nil && ins.Call.Method == nil && en.shouldInline(fr.fn, cal) {
+			if cal := ev.Callee; cal != nil && ins.Call.Method == nil && fr.depth < 3 && !fr.onStack(cal) && en.shouldInline(fr.fn, cal) {
 				st.events = append(st.events, ev)
 				idx := i
 				en.inline(st, cal, ev, func(st2 *state, results []ssa.Value) {
@@ -487,6 +500,9 @@ func (en *enum) instrs(st *state, b *ssa.BasicBlock, from int) {
 			st.events = append(st.events, ev)
 		case *ssa.Select:
 			ev := Event{Kind: KSelect, Instr: ins, Fn: fr.fn, Depth: fr.depth, Select: ins, NonBlocking: !ins.Blocking}
+			for _, s := range ins.States {
+				ev.Args = append(ev.Args, st.resolve(s.Chan)) // resolved channel per state
+			}
 			st.events = append(st.events, ev)
 		case *ssa.If:
 			cond := ins.Cond
@@ -551,7 +567,7 @@ func (en *enum) shouldInline(caller, callee *ssa.Function) bool {
 	if en.cfg.Inline == nil || callee == nil || len(callee.Blocks) == 0 {
 		return false
 	}
-	if HasLoop(callee) {
+	if HasLoop(callee) && !en.cfg.InlineLoops {
 		return false
 	}
 	return en.cfg.Inline(caller, callee)
@@ -652,7 +668,8 @@ func (en *enum) runDefers(st *state, defers []*ssa.Defer, k func(*state)) {
 		ev.Chan = st.resolve(d.Call.Args[0])
 	}
 	st.events = append(st.events, ev)
-	if cal := ev.Callee; cal != nil && d.Call.Method == nil && cal.Parent() != nil && len(cal.Blocks) > 0 && !HasLoop(cal) {
+	if cal := ev.Callee; cal != nil && d.Call.Method == nil && len(cal.Blocks) > 0 && st.fr.depth < 3 && !st.fr.onStack(cal) &&
+		(cal.Parent() != nil && !HasLoop(cal) || cal.Parent() == nil && en.shouldInline(st.fr.fn, cal)) {
 		// deferred closures are always expanded: they are part of the
 		// function's own exit protocol
 		en.inline(st, cal, ev, func(st2 *state, _ []ssa.Value) { en.runDefers(st2, rest, k) })
@@ -915,6 +932,16 @@ func (st *state) eval(v ssa.Value) (val, known bool) {
 				return eq == (x.Op == token.EQL), true
 			}
 		}
+		if zx, isZero, ok := ZeroTest(x); ok {
+			if f := st.facts[st.resolve(zx)]; f != nil {
+				if f.has && f.rel == REq {
+					return (f.c == "int:0") == isZero, true
+				}
+				if f.ne["int:0"] {
+					return !isZero, true
+				}
+			}
+		}
 	}
 	if f := st.facts[v]; f != nil && f.has {
 		switch f.rel {
@@ -982,6 +1009,17 @@ func (st *state) assume(cond ssa.Value, truth bool) (atoms []Atom, ok bool) {
 			return st.assume(x.X, !truth)
 		}
 	case *ssa.BinOp:
+		if zx, isZero, ok := ZeroTest(x); ok {
+			a := st.resolve(zx)
+			rel := RNe
+			if truth == isZero {
+				rel = REq
+			}
+			if !st.setFact(a, rel, "int:0") {
+				return nil, false
+			}
+			return []Atom{{V: a, Rel: rel, C: "int:0"}}, true
+		}
 		if x.Op == token.EQL || x.Op == token.NEQ {
 			eq := truth == (x.Op == token.EQL)
 			a, b := st.resolve(x.X), st.resolve(x.Y)
@@ -1251,4 +1289,76 @@ func (p *Path) Index(from int, pred func(*Event) bool) int {
 		}
 	}
 	return -1
+}
+
+// NonNeg reports whether v can never be negative: len/cap results and
+// unsigned integers.
+func NonNeg(v ssa.Value) bool {
+	for {
+		switch x := v.(type) {
+		case *ssa.Convert:
+			if b, ok := x.Type().Underlying().(*types.Basic); ok && b.Info()&types.IsUnsigned != 0 {
+				return true
+			}
+			v = x.X
+			continue
+		case *ssa.ChangeType:
+			v = x.X
+			continue
+		case *ssa.Call:
+			if b, ok := x.Call.Value.(*ssa.Builtin); ok && (b.Name() == "len" || b.Name() == "cap") {
+				return true
+			}
+		}
+		break
+	}
+	if b, ok := v.Type().Underlying().(*types.Basic); ok && b.Info()&types.IsUnsigned != 0 {
+		return true
+	}
+	return false
+}
+
+// ZeroTest recognises comparisons of a non-negative value with zero written
+// as an ordering: x > 0, x >= 1, 0 < x (non-zero) and x <= 0, x < 1, 0 >= x
+// (zero). It returns the value and whether the comparison means x == 0.
+func ZeroTest(b *ssa.BinOp) (x ssa.Value, isZero, ok bool) {
+	intOf := func(v ssa.Value) (int64, bool) {
+		for {
+			switch c := v.(type) {
+			case *ssa.Convert:
+				v = c.X
+				continue
+			case *ssa.ChangeType:
+				v = c.X
+				continue
+			case *ssa.Const:
+				if c.Value != nil && c.Value.Kind() == constant.Int {
+					n, ok := constant.Int64Val(c.Value)
+					return n, ok
+				}
+			}
+			return 0, false
+		}
+	}
+	op, X, Y := b.Op, b.X, b.Y
+	if _, isConst := intOf(X); isConst {
+		// 0 < x  ≡  x > 0
+		sw := map[token.Token]token.Token{token.LSS: token.GTR, token.GTR: token.LSS, token.LEQ: token.GEQ, token.GEQ: token.LEQ}
+		nop, has := sw[op]
+		if !has {
+			return nil, false, false
+		}
+		op, X, Y = nop, Y, X
+	}
+	k, isConst := intOf(Y)
+	if !isConst || !NonNeg(X) {
+		return nil, false, false
+	}
+	switch {
+	case op == token.GTR && k == 0, op == token.GEQ && k == 1:
+		return X, false, true
+	case op == token.LEQ && k == 0, op == token.LSS && k == 1:
+		return X, true, true
+	}
+	return nil, false, false
 }
